@@ -189,4 +189,15 @@ pub fn run_runtime(out: &mut Out, tier: &str, rng: &mut Rng) {
     for g in &cases {
         crate::dirrt::run_groups(out, g, &sig_tok, true);
     }
+    // a pending emergency does not go away by itself: seconds of REAL silence after the reading that raised it, then signals
+    // that do not bear on it (quick: one overspeed history with 5.3 s; thorough: tilt as well, and 11 s)
+    let mut silent: Vec<(Vec<Vec<Object>>, u64)> = vec![(vec![vec![engine(2500)], vec![other()], vec![rot(0x7A, 1.0, 0.0, 0.0, true)], vec![other()], vec![engine(1500)], vec![other()]], 5_300)];
+    if tier == "thorough" {
+        silent.push((vec![vec![rot(0x7A, 50.0, 0.0, 0.0, true)], vec![other()], vec![engine(1500)], vec![other()]], 5_300));
+        silent.push((vec![vec![engine(2500)], vec![other()], vec![other()]], 11_000));
+    }
+    for (g, ms) in &silent {
+        crate::dirrt::run_groups_paused(out, "dirq", g, &sig_tok, true, &[(0, *ms)]);
+        out.count("director: seconds of real silence while an emergency is pending");
+    }
 }
